@@ -435,6 +435,10 @@ def check(ctx, rep):
         rep.ob("R-WAKE-P", "notify() sets the poll event", len(sets) == 1, "", where_of(nt))
     wake.check_loops(ctx, rep, [li], components="state")
     wake.check_producers(ctx, rep, [li])
+    # the poll worker counts its calls and errors inside the code that handles a raising poll function (shared with C20)
+    from .c20 import labelnames_rule
+    labelnames_rule(ctx, rep, "R-SINGLE", ("POLL_ERROR", "POLL_TOTAL", "POLL_TIME"))
+
 
 
 def _is_result_of_this(ad, DF):
